@@ -29,7 +29,10 @@ Lemma reach_inv kd m ops : Inv m (ireach kd m ops).
 Proof. unfold ireach. apply run_sim. apply Inv_init. Qed.
 
 Lemma run_case_eq_spec c : run_case c = spec_case c.
-Proof. destruct c as [[kd m] ops]. unfold run_case, spec_case. rewrite refinement. reflexivity. Qed.
+Proof.
+  destruct c as [[kd a] ops]. unfold run_case, spec_case, obs_run.
+  destruct (ctor a); try reflexivity. rewrite refinement. reflexivity.
+Qed.
 
 (* runs compose: the state after ops1 ++ ops2 *)
 Lemma irun_app kd m ops1 ops2 s :
@@ -67,9 +70,11 @@ Proof.
   destruct o; cbn [sstep]; intros H.
   - destruct (s_put_now kd m x s) as [r1 s1]. destruct r1; inversion H; reflexivity.
   - apply s_put_now_res in H. destruct H; subst; reflexivity.
-  - destruct (s_get_now kd s) as [r1 s1] eqn:E. apply s_get_now_res in E.
+  - unfold s_get_op in H. destruct (s_get_now kd s) as [r1 s1] eqn:E. apply s_get_now_res in E.
     destruct E as [[z ->]| ->]; inversion H; reflexivity.
   - apply s_get_now_res in H. destruct H as [[z ->]| ->]; reflexivity.
+  - unfold s_get_op in H. destruct (s_get_now kd s) as [r1 s1] eqn:E. apply s_get_now_res in E.
+    destruct E as [[z ->]| ->]; inversion H; reflexivity.
   - destruct (sunf s) as [|[|n]]; inversion H; reflexivity.
   - inversion H; reflexivity.
   - inversion H; reflexivity.
@@ -132,8 +137,27 @@ Qed.
 
 Lemma check_case_model c : check_case c (run_case c) = true.
 Proof.
-  destruct c as [[kd m] ops]. unfold check_case.
-  rewrite <- run_case_eq_spec, obs_eqb_refl. simpl.
+  destruct c as [[kd a] ops]. unfold check_case.
+  rewrite <- run_case_eq_spec, obs_eqb_refl. cbn [andb].
+  unfold run_case, obs_run. destruct (ctor a) as [| |m]; try reflexivity.
   destruct (irun_views_ok kd m ops i_init (Inv_init m)) as [A B].
-  unfold run_case, obs_trace. rewrite A, map_length, B, Nat.eqb_refl. reflexivity.
+  rewrite Z.eqb_refl, A, map_length, B, Nat.eqb_refl. reflexivity.
+Qed.
+
+(* the constructor accepts exactly the non-negative integers *)
+Lemma ctor_ok a m : ctor a = COk m <-> exists z, a = MInt z /\ (0 <= z)%Z /\ m = Z.to_nat z.
+Proof.
+  unfold ctor. split.
+  - destruct a as [|z]; [discriminate|]. destruct (Z.ltb_spec z 0) as [L|L]; [discriminate|].
+    intros E. inversion E. exists z. auto.
+  - intros [z [-> [Hz ->]]]. destruct (Z.ltb_spec z 0); [lia|reflexivity].
+Qed.
+Lemma ctor_rejects a :
+  (ctor a = CTypeError <-> a = MNone) /\ (ctor a = CValueError <-> exists z, a = MInt z /\ (z < 0)%Z).
+Proof.
+  unfold ctor. split; split.
+  - destruct a as [|z]; [reflexivity|]. destruct (z <? 0)%Z; discriminate.
+  - intros ->. reflexivity.
+  - destruct a as [|z]; [discriminate|]. destruct (Z.ltb_spec z 0); [|discriminate]. intros _. exists z. auto.
+  - intros [z [-> Hz]]. destruct (Z.ltb_spec z 0); [reflexivity|lia].
 Qed.
